@@ -198,6 +198,88 @@ fn build_shape(name: &str, fl: &[J]) -> Tree {
     }
 }
 
+// ---------------------------------------------------------------- directed cases outside the generated grammar
+/// the constants of a tree in traversal order, as bit patterns (structural equality of trees identifies the two zeros)
+fn const_bits(t: &Tree) -> Vec<i64> {
+    use fidget_core::context::TreeOp;
+    let mut out = vec![];
+    let mut todo: Vec<&TreeOp> = vec![&**t];
+    let mut budget = 10000;
+    while let Some(n) = todo.pop() {
+        budget -= 1;
+        if budget == 0 { break; }
+        match n {
+            TreeOp::Const(c) => out.push(c.to_bits() as i32 as i64),
+            TreeOp::Input(..) => {}
+            TreeOp::Unary(_, a) => todo.push(a),
+            TreeOp::Binary(_, a, b) => { todo.push(b); todo.push(a); }
+            TreeOp::RemapAxes { target, x, y, z } => { todo.push(z); todo.push(y); todo.push(x); todo.push(target); }
+            TreeOp::RemapAffine { target, .. } => todo.push(target),
+        }
+    }
+    out
+}
+
+/// Scripts and ways of running them that the grammar of Script.tla does not generate: negative zero as a number (a
+/// constant is a bit pattern: `x / -0.0`), names bound by the host's scope, by an earlier script on the same scope, or
+/// before an `eval` inside the script.  Each is compared with the tree the corresponding Rust calls build.
+fn direct_cases(w: &mut dyn Write, id: &mut usize) {
+    use rhai::Scope;
+    let (x, y, z) = (Tree::x(), Tree::y(), Tree::z());
+    type Run = std::boxed::Box<dyn Fn(&rhai::Engine) -> Result<Tree, String>>;
+    let script = |s: &'static str| -> Run { std::boxed::Box::new(move |e: &rhai::Engine| e.eval::<Tree>(s).map_err(|e| format!("{e}"))) };
+    let mut cases: Vec<(&str, Run, Tree)> = vec![
+        ("x / -0.0", script("x / -0.0"), x.clone() / Tree::constant(-0.0)),
+        ("atan2(y, -0.0)", script("atan2(y, -0.0)"), y.clone().atan2(Tree::constant(-0.0))),
+        ("let dir = -1.0; let k = dir * 0.0; x * k", script("let dir = -1.0; let k = dir * 0.0; x * k"), x.clone() * Tree::constant(-0.0)),
+        ("-0.0 - z", script("-0.0 - z"), Tree::constant(-0.0) - z.clone()),
+        ("x + 0.0", script("x + 0.0"), x.clone() + Tree::constant(0.0)),
+        ("min(x, 1.0) * 1", script("min(x, 1.0) * 1"), x.clone().min(Tree::constant(1.0)) * Tree::constant(1.0)),
+        ("let x = x * 2; x + 3", script("let x = x * 2; x + 3"), x.clone() * Tree::constant(2.0) + Tree::constant(3.0)),
+    ];
+    // a name bound in the host's scope wins over the built-in axis of the same name
+    {
+        let bound = x.clone() * Tree::constant(2.0);
+        let b2 = bound.clone();
+        cases.push(("scope {x = x * 2}: x + 3", std::boxed::Box::new(move |e: &rhai::Engine| {
+            let mut scope = Scope::new();
+            scope.push("x", b2.clone());
+            e.eval_with_scope::<Tree>(&mut scope, "x + 3").map_err(|e| format!("{e}"))
+        }), bound + Tree::constant(3.0)));
+    }
+    // ... and so does a name bound by an earlier script on the same scope
+    {
+        let (x1, z1) = (x.clone(), z.clone());
+        cases.push(("scope; `let y = x * 2;` then `y + z`", std::boxed::Box::new(move |e: &rhai::Engine| {
+            let mut scope = Scope::new();
+            e.run_with_scope(&mut scope, "let y = x * 2;").map_err(|e| format!("{e}"))?;
+            e.eval_with_scope::<Tree>(&mut scope, "y + z").map_err(|e| format!("{e}"))
+        }), x1 * Tree::constant(2.0) + z1));
+    }
+    {
+        let y1 = y.clone();
+        cases.push(("scope; `let PI = y;` then `PI + 1`", std::boxed::Box::new(move |e: &rhai::Engine| {
+            let mut scope = Scope::new();
+            e.run_with_scope(&mut scope, "let PI = y;").map_err(|e| format!("{e}"))?;
+            e.eval_with_scope::<Tree>(&mut scope, "PI + 1").map_err(|e| format!("{e}"))
+        }), y1 + Tree::constant(1.0)));
+    }
+    // ... and a name shadowed before an `eval` inside the script
+    cases.push(("let x = x * 2; eval(\"let q = 1;\"); x + 3", script("let x = x * 2; eval(\"let q = 1;\"); x + 3"), x.clone() * Tree::constant(2.0) + Tree::constant(3.0)));
+    let engine = fidget_rhai::engine();
+    for (desc, run, want) in cases {
+        let r = vharness::catch(std::panic::AssertUnwindSafe(|| run(&engine)));
+        let (status, equal, got_bits, msg) = match r {
+            Err(m) => ("panic", false, vec![], m),
+            Ok(Err(e)) => ("err", false, vec![], e),
+            Ok(Ok(t)) => ("ok", t == want, const_bits(&t), String::new()),
+        };
+        writeln!(w, "{}", json!({"ev": "direct", "id": *id, "script": desc, "status": status, "msg": msg, "equal": equal,
+            "gotbits": got_bits, "wantbits": const_bits(&want), "ast": {"a": "none"}})).unwrap();
+        *id += 1;
+    }
+}
+
 fn main() {
     let args: Vec<String> = std::env::args().collect();
     match args[1].as_str() {
@@ -258,6 +340,7 @@ fn main() {
                 writeln!(w, "{j}").unwrap();
                 id += 1;
             }
+            direct_cases(&mut w, &mut id);
             w.flush().unwrap();
             eprintln!("c17: {id} scripts");
         }
